@@ -144,6 +144,8 @@ def probe_tree(R, root, text, spans, label, layout_kind, after_update):
 def check_program(R, rng, tokens, label, tier):
     nl = 2 if tier == "quick" else 4
     texts = [("canonical", join_tokens(tokens))] + [("random", layout_gen.layout(tokens, rng, allow_dot_glue=True)) for _ in range(nl)]
+    # the same with Windows line breaks (the lexer skips the carriage return; positions refer to the text as given)
+    texts.append(("crlf", layout_gen.layout(tokens, rng, allow_dot_glue=True).replace("\n", "\r\n")))
     for kind, text in texts:
         R.evaluations += 1
         try:
